@@ -782,6 +782,78 @@ func TestVerif_C05_Scenarios(t *testing.T) {
 		}
 	}
 
+	// (S4) as S3, but writer 2's complete, acknowledged write lands right after writer 1's commit, i.e. while writer 1 waits
+	// for the store's clock to catch up with its generated version (before it issues the re-stamp); writer 2's commit CAS is
+	// still below writer 1's generated version. Writer 2's revision must survive.
+	for variant := 0; variant < run.N(3, 10); variant++ {
+		e.caseN++
+		doc := fmt.Sprintf("c05-s4-%d", e.caseN)
+		e.vs.ResetLog()
+		rev1, _, err := collection.Put(ctx, doc, Body{"m": "s4-1", "chan": "A"})
+		if err != nil {
+			t.Fatalf("s4 setup: %v", err)
+		}
+		offset := uint64(time.Duration(250+100*(variant%3)) * time.Millisecond)
+		e.db.hlc.SetClockForTest(func() uint64 { return sgbucket.HLCWallClock() + offset })
+		fired := false
+		var rev3 string
+		var seq3 uint64
+		var err3 error
+		var cas1 uint64
+		restamps := 0
+		e.vs.SetAfter(func(op *base.VerifOp) {
+			if op.Key != doc {
+				return
+			}
+			if op.Kind == "UpdateXattrs" && fired {
+				restamps++
+			}
+			if op.Kind == "WriteUpdateWithXattrs" && op.Applied && !fired {
+				fired = true
+				cas1 = op.CasOut
+				e.db.hlc.SetClockForTest(sgbucket.HLCWallClock)
+				if cur, gerr := collection.GetDocument(ctx, doc, DocUnmarshalSync); gerr == nil {
+					var d3 *Document
+					if variant%3 == 2 {
+						// (a write that generates a version of its own waits for the clock itself: its CAS ends up above writer 1's version)
+						rev3, d3, err3 = collection.Put(ctx, doc, Body{BodyRev: cur.GetRevTreeID(), "m": "s4-3", "chan": "A"})
+					} else {
+						// a pushed revision of a revision-tree peer generates no version: its commit CAS stays below writer 1's version
+						g, _ := ParseRevID(ctx, cur.GetRevTreeID())
+						rev3 = fmt.Sprintf("%d-abc%x", g+1, e.caseN)
+						d3, _, err3 = collection.PutExistingRevWithBody(ctx, doc, Body{"m": "s4-3", "chan": "A"}, []string{rev3, cur.GetRevTreeID()}, true, ExistingVersionLegacyRev)
+					}
+					if err3 == nil && d3 != nil {
+						seq3 = d3.Sequence
+					}
+				}
+			}
+		})
+		rev2, _, err2 := collection.Put(ctx, doc, Body{BodyRev: rev1, "m": "s4-2", "chan": "A"})
+		e.vs.SetAfter(nil)
+		e.db.hlc.SetClockForTest(sgbucket.HLCWallClock)
+		run.Eval()
+		if !fired {
+			run.Count("s4_writer1_commit_not_seen", 1)
+			continue
+		}
+		run.Count("s4_writes_committed_while_writer1_waits_for_the_clock", 1)
+		run.Count("s4_restamp_writes_issued_by_writer1_after_the_wait", restamps)
+		run.Nontrivial(fmt.Sprintf("s4/%d", variant))
+		final, ferr := collection.GetDocument(ctx, doc, DocUnmarshalAll)
+		wit := map[string]any{"scenario": "writer 2 commits while writer 1 waits (clock ahead of the store) to re-stamp its version", "rev1": rev1, "rev2": rev2, "err2": fmt.Sprint(err2), "rev3": rev3, "err3": fmt.Sprint(err3), "seq3": seq3, "writer1_commit_cas": cas1, "clock_offset_ns": offset}
+		if ferr != nil || final == nil || err2 != nil || err3 != nil {
+			run.Note("s4 variant %d: ferr=%v err2=%v err3=%v", variant, ferr, err2, err3)
+			run.Inconclusive("s4 scenario did not run as planned")
+			continue
+		}
+		wit["stored_history"] = c05Revs(final)
+		if _, ok := final.History[rev3]; !ok || final.GetRevTreeID() != rev3 || final.Sequence != seq3 || len(final.History) != 3 {
+			run.Violation("lost-write", "C05|acknowledged-write-overwritten-by-the-post-commit-re-stamp-of-the-previous-writer|committed-while-the-writer-waited-for-the-clock",
+				fmt.Sprintf("%s: writer 2 was acknowledged %s at sequence %d while writer 1 was waiting to re-stamp; stored current revision %s, sequence %d, history %v", doc, rev3, seq3, final.GetRevTreeID(), final.Sequence, c05Revs(final)), wit)
+		}
+	}
+
 	// (S2) every write kind with forced CAS failures at attempts 1..3: the acknowledged result is what is stored
 	for _, kind := range []string{"put", "delete", "push"} {
 		for _, interfere := range [][]int{{1}, {1, 2}, {2}, {1, 2, 3}} {
